@@ -161,7 +161,7 @@ claims = {
     "C04": ("The real verifyWithExecutor with lastPageMatch, detectFullCheckpoint, readWALHeader, readWALFileAt and the WAL reader decides continuity on WAL images generated from every abstract history within the bound (replicated frames, unseen frames, up to two restarts, truncation), with symbolic salts, page numbers and images, for a fresh process, the same process, and a DB object carried through the real Close and Open: whenever the answer is 'incremental', ground truth must say no committed frame is missing and the resume point must be the replicated offset or the start of the single new generation. After a local state reset the next acknowledged replica sync must have stored the new files, above everything already on the replica. Every answer of verify is followed by the real DB.sync: the file it publishes, laid over the replicated state (a snapshot must hold every page), must be the source database, and an idle second round must not disturb it (thorough). VxC04ResetContinuity runs the real ResetLocalState in a running process whose replica lags and checks the next verify+sync on whatever session state the reset leaves; VxC04InitBehind runs DB.init with the local state lost and a replica whose calls fail transiently: success means the local position is not below the replica's. Unseen frames may form one two-frame transaction.",
             "E-WAL is an assumption about SQLite (tested against real SQLite while writing DESIGN.md). Seven defects were found here and repaired (H1, H2, H3 twice, H9, H11, H12).", "DESIGN.md 5 (C04), D.4, 7"),
     "C01": ("Decided as a composition: VxC01Sync executes the real DB.sync (WAL reader, pageMap, writeLTXFromWAL / writeLTXFromDB, real LTX encoder) on a WAL whose frames after the cursor are symbolic (page numbers 1-4, images, commit marks, open tail) and checks the published file: numbered pos+1, holds a page iff it changed in a committed transaction of the range or lies in the growth range, with the latest committed image, header commit = last commit, synced offset = end of the last commit, synced-to-end flag exact. The other obligations are the harnesses of C04 (continuity), C09 (frame selection), C05 (acknowledgement), C14 (checkpoint step's SQL), C08/C06/C10 (restore). VxC01Ack runs the three acknowledging entry points (SyncAndWait, Store.SyncDB with wait, Close) with the real Sync chunk loop, syncLocked, syncReplicaWithRetry and Replica.Sync over a contract model of the WAL copy: a nil result means the whole committed WAL was copied and every local level-0 file is stored, whatever the backlog and MaxSyncWALBytes. VxC01Sync takes the byte budget as an input (a snapshot ignores it).",
-            "The end-to-end statement is a paper composition of separately decided obligations; no single symbolic history runs through sync, checkpoint, upload and restore.", "DESIGN.md 5 (C01)"),
+            "Besides the separately decided obligations, one end-to-end harness carries a symbolic WAL history through verify, sync, upload and restore (3-page database, single round); checkpoints inside the history are the E-WAL generator's restarts, not executions of checkpointWithExecutor.", "DESIGN.md 5 (C01)"),
     "C18": ("The real VFS read path under the vfs build tag - CalcRestorePlan, rebuildIndex/buildIndexMap, FetchPageIndex, FetchLTXHeader, FetchPage, ltx.DecodePageIndex/DecodePageData, pollReplicaClient/pollLevel, Lock/Unlock with the pending index, the LRU page cache, ReadAt, FileSize, SetTargetTime/ResetTime - is executed symbolically over replicas produced by the real ltx encoder from generated primary histories (growth, update, partial shrink, VACUUM) and schedules of uploads, level-1 compactions, level-0 retention, reader locks and polls: at open, after every poll (successful or failed) and in a time-travel view, FileSize and every page equal the restore at VFSFile.Pos(), the position never moves backwards, a time-travel view sits at the last transaction before the requested time and is not disturbed by polls. SetTargetTime may land while a poll that finds a new file is in flight (callback inside the listing call).",
             "Two defects found here were repaired (H6 index replaced/untrimmed on shrink, H10 older level-1 file laid over newer level-0 pages). SQLite reading through the VFS, hydration and the write path are outside the claim.", "DESIGN.md 5 (C18), 7 (H6, H10)"),
 }
@@ -400,13 +400,14 @@ props["C01"] = {
     "runs": [
         run("root", "VxC01Sync", {}, {}),
         run("root", "VxC01Ack", {}, {}, note="acknowledging entry points: SyncAndWait, Store.SyncDB(wait), Close"),
-        run("root", "VxC04SameProcess", {"ROUND2": 0}, {}, note="continuity invariant in the observed scenario (shared with C04)"),
+        run("root", "VxC04SameProcess", {"ROUND2": 0, "E2E": 1}, {"E2E": 1}, note="one symbolic history through verify, sync, upload, restore plan, ltx compaction and decode: the restored database equals the source (continuity harness of C04 in the observed scenario, carried to the end)"),
+        run("root", "VxC04Fresh", None, {"ROUND2": 0, "E2E": 1}, tier="thorough", note="the same end-to-end chain after a restart"),
         run("root", "VxC09PageMap", {"PS": 8, "K": 2, "_tactic": 1}, {"PS": 8, "K": 3, "_tactic": 1}, note="frame selection = SQLite's committed pages (shared with C09)"),
         run("root", "VxC05Sync", {"N": 2, "R": 1}, {"N": 3, "R": 2}, note="acknowledgement implies stored (shared with C05)"),
         run("root", "VxC14Checkpoint", {}, {}, note="checkpoint step: barrier transaction rolled back, read lock re-acquired (shared with C14)"),
     ],
     "assumptions": [
-        "C01 is decided as a composition of obligations, each by its own harness; the composition argument is on paper (DESIGN.md C01): continuity (C04) + frame selection (C09) + page set and header arithmetic of each file (VxC01Sync) + upload order and acknowledgement (C05) + restore = valid plan (C08) o compaction equivalence (C06) o verified decode (C10)",
+        "C01 is decided as a composition of obligations, each by its own harness (continuity C04, frame selection C09, page set and header arithmetic VxC01Sync, acknowledgement VxC01Ack/C05, restore C08/C06/C10), plus one end-to-end harness in which a single symbolic history (E-WAL generator of C04) runs through the real verify, DB.sync, Replica.syncOnce, CalcRestorePlan, ltx compaction and decode, and the restored pages must equal the source",
         "SQLite WAL contract E-WAL; growth-completeness of SQLite's own WAL frames (a transaction that grows the database writes every new page)",
     ],
     "stubs": ["as in the harnesses named"],
